@@ -15,6 +15,11 @@ Theorem json_quote_reads_back : forall s rest, str_ok s = true ->
 Proof. exact JsonParseProofs.pstr_quote. Qed.
 Print Assumptions json_quote_reads_back.
 
+(* a string is written the same way whether or not it came from a raw (backtick) literal *)
+Theorem raw_flag_irrelevant : forall fmt raw s, to_json fmt (VStr raw s) = json_quote s.
+Proof. intros fmt raw s. exact eq_refl. Qed.
+Print Assumptions raw_flag_irrelevant.
+
 (* ---- 2. well-formed and denotes the same data: for EVERY value of the modelled types
         (wf: int64 integers, float tokens that are JSON numbers, any strings; symbol and
         string keys; any nesting; NaN/Inf allowed) ---- *)
@@ -161,7 +166,7 @@ Definition pf0 (tok : list Z) : Z := 4609434218613702656.
 (* a record of type Pt: field b = the string  a, quote, backslash, newline, <, e-acute, U+0001;
    field a = [1.5 nil -7] *)
 Definition ex_value : value :=
-  VHash [80;116] [(KSym [98], VStr [97;34;92;10;60;233;1]);
+  VHash [80;116] [(KSym [98], VStr true [97;34;92;10;60;233;1]);
                   (KSym [97], VArr [VFloat false 4609434218613702656; VNil; VInt (-7)])].
 
 Example ex_data : data fmt0 ex_value = true /\ no_reserved_keys ex_value = true /\ wf fmt0 ex_value = true.
@@ -178,7 +183,7 @@ Proof. vm_compute. reflexivity. Qed.
 Example ex_parse : json_parse (to_json fmt0 ex_value) = Some (tree_of fmt0 ex_value).
 Proof. vm_compute. reflexivity. Qed.
 
-Example ex_unjson : unjson pf0 (to_json fmt0 ex_value) = Ok ex_value.
+Example ex_unjson : unjson pf0 (to_json fmt0 ex_value) = Ok (norm ex_value).
 Proof. vm_compute. reflexivity. Qed.
 
 (* the reader is strict: raw control characters, bad escapes, leading zeros, trailing text *)
